@@ -157,6 +157,7 @@ func Place(x *T) []Item {
 func Universe(tier string) []Item {
 	out := SizeSweep(tier)
 	out = append(out, Interaction()...)
+	out = append(out, Extremes()...)
 	seen := map[string]bool{}
 	for _, b := range Bases(tier) {
 		for _, it := range Place(b) {
@@ -203,6 +204,20 @@ func Recursive() []Item {
 	m := &T{K: KStruct, Named: "gen.M", GoName: "M"}
 	m.Fields = []F{{Name: "Kids", Index: 1, T: Map(L(KString), m)}, {Name: "V", Index: 2, T: L(KInt)}}
 	var out []Item
+	// the recursion-depth dimension: lists / trees / maps of every depth 1..24 and a few long ones
+	var pv, rv, mv []V
+	for _, n := range []int{1, 2, 3, 4, 5, 6, 7, 8, 9, 10, 11, 12, 13, 14, 15, 16, 17, 18, 19, 20, 21, 22, 23, 24, 50, 200, 1000} {
+		pl := V{E: []V{{Nil: true}, {U: uint64(n)}}}
+		rl := V{E: []V{{Nil: true}, {U: 1}, {S: "leaf"}}}
+		ml := V{E: []V{{Nil: true}, {U: 1}}}
+		for d := 1; d < n; d++ {
+			pl = V{E: []V{{E: []V{pl}}, {U: uint64(d)}}}
+			rl = V{E: []V{{E: []V{rl, {E: []V{{Nil: true}, {U: uint64(d)}, {S: ""}}}}}, {U: uint64(d)}, {S: "n" + itoa(d)}}}
+			ml = V{E: []V{{E: []V{{S: "k" + itoa(d)}, ml}}, {U: uint64(d)}}}
+		}
+		pv, rv, mv = append(pv, pl), append(rv, rl), append(mv, ml)
+	}
+	out = append(out, Item{T: p, Base: p, Pos: "recursive-depth", Vals: pv}, Item{T: r, Base: r, Pos: "recursive-depth", Vals: rv}, Item{T: m, Base: m, Pos: "recursive-depth", Vals: mv})
 	for _, t := range []*T{r, a1, b1, p, m} {
 		out = append(out, Item{T: t, Base: t, Pos: "recursive"},
 			Item{T: &T{K: KSlice, Elem: t}, Base: t, Pos: "recursive"},
@@ -390,6 +405,88 @@ func Interaction() []Item {
 		t := Struct(F{Name: "A", Index: idx[0], T: L(KString)}, F{Name: "B", Index: idx[1], T: L(KInt)}, F{Name: "C", Index: idx[2], T: Slice(L(KUint))})
 		out = append(out, Item{T: t, Base: t, Pos: "interact"},
 			Item{T: Struct(Fld(1, t), Fld(2, Slice(t)), F{Name: "Z", Index: 9, T: L(KInt)}), Base: t, Pos: "interact"})
+	}
+	return out
+}
+
+// Extremes lists shapes at the far end of one structural dimension each: very wide structs
+// (dense and sparse indexes), deep towers of nested structs, long pointer chains, deep
+// slices of slices - each with explicit values (all zero, all set, one field set at a time).
+func Extremes() []Item {
+	L := Leaf
+	var out []Item
+	// wide structs
+	for _, w := range []int{17, 64, 65, 130, 260} {
+		for _, sparse := range []bool{false, true} {
+			if sparse && w > 65 {
+				continue
+			}
+			fs := make([]F, w)
+			for i := range fs {
+				idx := i + 1
+				if sparse {
+					idx = 1 + i*67 // up to 4300: fieldsByIndex is a dense table
+				}
+				t := L(KInt)
+				switch i % 4 {
+				case 1:
+					t = L(KString)
+				case 2:
+					t = Slice(L(KUint))
+				case 3:
+					t = Ptr(L(KBool))
+				}
+				fs[i] = F{Name: "W" + itoa(i), Index: idx, T: t}
+			}
+			t := Struct(fs...)
+			set := func(i int) V {
+				switch i % 4 {
+				case 1:
+					return V{S: "s" + itoa(i)}
+				case 2:
+					return V{E: []V{{U: uint64(i)}, {U: uint64(i) << 20}}}
+				case 3:
+					return V{E: []V{{U: uint64(i / 4 % 2)}}}
+				}
+				return V{U: uint64(int64(i*31 - 1000))}
+			}
+			zero := V{E: make([]V, w)}
+			all := V{E: make([]V, w)}
+			for i := range fs {
+				zero.E[i] = Zero(fs[i].T)
+				all.E[i] = set(i)
+			}
+			vals := []V{zero, all}
+			for i := range fs {
+				one := V{E: append([]V(nil), zero.E...)}
+				one.E[i] = set(i)
+				vals = append(vals, one)
+			}
+			out = append(out, Item{T: t, Base: t, Pos: "extreme", Vals: vals})
+		}
+	}
+	// towers of nested structs / pointer chains / slices of slices
+	for _, depth := range []int{4, 8, 16, 40} {
+		tower := L(KInt)
+		vset, vzero := V{U: 7}, V{}
+		for d := 0; d < depth; d++ {
+			tower = Struct(Fld(1, tower), Fld(2, L(KString)))
+			vset = V{E: []V{vset, {S: "d" + itoa(d)}}}
+			vzero = V{E: []V{vzero, {S: ""}}}
+		}
+		out = append(out, Item{T: tower, Base: tower, Pos: "extreme", Vals: []V{vzero, vset}})
+		if depth <= 8 {
+			chain := L(KInt)
+			cv := V{U: 5}
+			czero := V{}
+			for d := 0; d < depth; d++ {
+				chain = Ptr(chain)
+				cv = V{E: []V{cv}}
+				czero = V{E: []V{czero}}
+			}
+			t := Struct(Fld(1, chain), F{Name: "Z", Index: 9, T: L(KInt)})
+			out = append(out, Item{T: t, Base: chain, Pos: "extreme", Vals: []V{{E: []V{{Nil: true}, {}}}, {E: []V{cv, {U: 1}}}, {E: []V{czero, {U: 1}}}}})
+		}
 	}
 	return out
 }
